@@ -23,7 +23,8 @@ RULE = (
     "is_disposed must agree, and a second assignment to a live SingleAssignmentDisposable must raise. "
     "det-enum/det-gen: 2-3 logical threads with 1-3 commands each on one shared container run by Engine DET (vlib/det.py: "
     "line-level yield points in reactivex code, cooperative locks); det-enum explores every schedule with <=1 (quick) / <=2 "
-    "(thorough) preemptions for all programs with <=3 commands over the class alphabet; det-gen draws programs and <=3 "
+    "(thorough) preemptions for all programs with <=3 commands over the class alphabet (thorough also 2||2 with <=2 and "
+    "1||1||2 with <=2, composite <=1, preemptions); det-gen draws programs and <=3 "
     "preemption points. Oracle = interleaving-independent end-state clauses on the sequentially consistent call log: no item "
     "disposed twice; an added/accepted item is disposed iff it is no longer held; nothing is held and everything is disposed "
     "once a dispose() ran; remove()==True implies disposed; at most one assignment accepted by a live SingleAssignment; "
@@ -114,6 +115,12 @@ def _det_enum(tier):
             if tier == "quick" and not any(c[0] == "dispose" for t in threads for c in t):
                 continue
             yield {"cls": cls, "init": init, "foreign": [], "threads": threads, "sched": {"mode": "all", "K": K}}
+        if tier != "quick":  # deeper programs: 2||2 exhaustively with <=2 preemptions, 1||1||2 (<=2; composite <=1)
+            for threads in disp.programs(alpha, [(2, 2)]):
+                yield {"cls": cls, "init": init, "foreign": [], "threads": threads, "sched": {"mode": "all", "K": 2}}
+            for threads in disp.programs(alpha, [(1, 1, 2)]):
+                if any(c[0] == "dispose" for t in threads for c in t):
+                    yield {"cls": cls, "init": init, "foreign": [], "threads": threads, "sched": {"mode": "all", "K": 1 if cls == "composite" else 2}}
 
 
 def _det_cmd(cls):
